@@ -54,6 +54,24 @@ func (s *SwappableDB) Swap(path string, fkConstraints, walEnabled bool) error {
 		return fmt.Errorf("invalid SQLite data")
 	}
 
+	// The header check above only looks at the first few bytes. Confirm the file
+	// can actually be opened as a database, exactly as it will be opened below,
+	// before anything destructive is done. Once the current database has been
+	// closed and its files removed there is no way back, and a file which then
+	// fails to open would leave this object without any database at all.
+	vdb, err := OpenWithDriver(s.drv, path, fkConstraints, walEnabled)
+	if err != nil {
+		RemoveWALFiles(path)
+		return fmt.Errorf("invalid SQLite data: %s", err)
+	}
+	if err := vdb.Close(); err != nil {
+		RemoveWALFiles(path)
+		return fmt.Errorf("invalid SQLite data: %s", err)
+	}
+	if err := RemoveWALFiles(path); err != nil {
+		return fmt.Errorf("failed to remove WAL files of new database: %s", err)
+	}
+
 	s.dbMu.Lock()
 	defer s.dbMu.Unlock()
 	if err := s.db.Close(); err != nil {
